@@ -643,12 +643,12 @@ fn gen_exhaustive(g: &mut Gen, maxlen: usize) {
 }
 
 pub fn gen_c01(g: &mut Gen) {
-    let n_docs = g.budget(1500, 60_000);
+    let n_docs = g.budget(4000, 60_000);
     gen_docs(g, n_docs);
     gen_alignment(g);
-    let n_hooks = g.budget(1500, 100_000);
+    let n_hooks = g.budget(4000, 100_000);
     gen_hooks(g, n_hooks);
-    let n_mal = g.budget(4000, 400_000);
+    let n_mal = g.budget(15_000, 400_000);
     for _ in 0..n_mal {
         let m = malformed(g);
         g.emit(format!("ttape {}", hex(&m)));
@@ -658,7 +658,7 @@ pub fn gen_c01(g: &mut Gen) {
 /// C06 (text half): any input; emphasis on tolerated malformations
 pub fn gen_wf(g: &mut Gen) {
     let lay = LayoutCfg::full();
-    let n = g.budget(2500, 300_000);
+    let n = g.budget(10_000, 300_000);
     for i in 0..n {
         let bytes = if i % 3 == 0 {
             let d = gen_lexdoc(g);
@@ -675,7 +675,7 @@ pub fn gen_wf(g: &mut Gen) {
 /// C19 (text tape part): every prefix of well-formed documents
 pub fn gen_cut(g: &mut Gen) {
     let lay = LayoutCfg { max_trailing: 3, ..LayoutCfg::full() };
-    let n = g.budget(250, 20_000);
+    let n = g.budget(700, 20_000);
     for i in 0..n {
         let d = gen_lexdoc(g);
         let bytes = if i % 2 == 0 { render_canonical(&d.lex) } else { render_layout(&mut g.rng, &lay, &d.lex) };
